@@ -8,6 +8,7 @@ pub mod registry;
 
 pub mod c01;
 pub mod c01b;
+pub mod c01c;
 pub mod c02;
 pub mod e3;
 pub mod c03;
@@ -41,7 +42,7 @@ use crate::registry::DynPart;
 pub fn parts_for(id: &str) -> Option<(&'static str, Vec<Box<dyn DynPart>>, Vec<String>)> {
     let none: Vec<String> = vec![];
     Some(match id {
-        "C01" => ("C01", { let mut p = c01b::parts(); p.extend(c01::parts()); p }, none),
+        "C01" => ("C01", { let mut p = c01b::parts(); p.extend(c01::parts()); p.extend(c01c::parts()); p }, none),
         "C02" => ("C02", c02::parts_all(), none),
         "C03" => ("C03", c03::parts(), none),
         "C04" => ("C04", c04::parts(), none),
